@@ -589,3 +589,94 @@ def _(c):
         c.scenario(text.splitlines()[0], pre)
     c.ensures("all([line_with(result, nm).count('character(len=%d)' % n) == 2 for nm, n in want])", "declared-length-is-the-longest-item")
     c.no_raise()
+
+
+# ---- C14: repeated assignment -----------------------------------------------------------------------------------------------
+PRE14 = Prelude([
+    ("w0 float = 1", "w0"), ("w1 float = 1", "w1"), ("v0 int = 1", "v0"), ("f0 bool = true", "f0"),
+    ("len float = 3 cm", "len"), ("cnt int = 4", "cnt"), ("flag bool = true", "flag"), ("txt str = abc", "txt"), ("mass float32 = 1 kg", "mass"),
+    ("fixed float = 5 m", "fixed"), ("  !constant", None), ("big uint64 = 7", "big"),
+], {"w0": ("real", "w0"), "w1": ("real", "w1"), "v0": ("int", "v0"), "f0": ("bool", "f0")})
+N14 = len(PRE14.names)
+# (name, text, refused, [(node, value tree)], [(node, unit)])
+C14_TEXTS = [
+    ("no-unit-means-the-definition-unit", "len = {?w0}", False, [("len", w0)], [("len", "cm")]),
+    ("other-unit-is-converted", "len = {?w0} m", False, [("len", ("*", w0, 100))], [("len", "cm")]),
+    ("last-assignment-wins", "len = {?w0} mm\nlen = {?w1} km", False, [("len", ("*", w1, 100000))], [("len", "cm")]),
+    ("typed-reassignment-keeps-the-first-unit", "len float = {?w0} m", False, [("len", ("*", w0, 100))], [("len", "cm")]),
+    ("three-assignments-mixed", "len = 7\nlen float = {?w0} mm\nlen = {?w1}", False, [("len", w1)], [("len", "cm")]),
+    ("mass-in-grams", "mass = {?w0} g", False, [("mass", ("/", w0, 1000))], [("mass", "kg")]),
+    ("integer-any-value", "cnt = {?v0}", False, [("cnt", v0)], []),
+    ("boolean-any-value", "flag = {?f0}", False, [("flag", f0)], []),
+    ("zero-negative-false", "len = 0\ncnt = -0\nflag = false\nmass = -2.5", False, [("len", 0), ("cnt", 0), ("flag", False), ("mass", -2.5)], [("len", "cm"), ("mass", "kg")]),
+    ("zero-after-nonzero", "len = {?w0}\nlen = 0 m", False, [("len", 0)], [("len", "cm")]),
+    ("back-to-the-value-first-written", "len = {?w0}\nlen = 3\ncnt = 9\ncnt = 4\ntxt = q\ntxt = abc\nflag = false\nflag = true", False, [("len", 3), ("cnt", 4), ("txt", "abc"), ("flag", True)], [("len", "cm")]),
+    ("same-number-other-unit", "len = 3 m\nmass = 1 g", False, [("len", 300), ("mass", 0.001)], [("len", "cm"), ("mass", "kg")]),
+    ("none-keeps-type-and-unit", "len = none\ncnt = none", False, [], [("len", "cm")]),
+    ("text", "txt = xyz", False, [("txt", "xyz")], []),
+    ("different-data-type-refused", "len int = 3", True, [], []),
+    ("different-data-type-refused-2", "cnt float = {?w0}", True, [], []),
+    ("other-dimension-refused", "len = {?w0} s", True, [], []),
+    ("other-dimension-refused-2", "mass = 3 m", True, [], []),
+    ("constant-refused", "fixed = {?w0} m", True, [], []),
+    ("constant-refused-typed", "fixed float = 1 m", True, [], []),
+    ("declared-without-value-refused", "d float cm", True, [], []),
+    ("declared-then-assigned", "d float cm\nd = {?w0} mm", False, [("d", ("/", w0, 10))], [("d", "cm")]),
+    ("new-node-assigned-twice", "n float = {?w0} km\nn = {?w1} m", False, [("n", ("/", w1, 1000))], [("n", "km")]),
+    ("modifying-an-undefined-node-refused", "nope = 3", True, [], []),
+]
+KEYWORDS14 = [("len", "float"), ("cnt", "int"), ("flag", "bool"), ("txt", "str"), ("mass", "float"), ("fixed", "float"), ("big", "int")]
+
+
+@spec
+def type_of(env, name):
+    n = node_of(env, name)
+    return None if n is None else (n.keyword, int(n.precision) if n.keyword in ('int', 'float') else None, n.unsigned if n.keyword == 'int' else None)
+
+
+@contract(DIPC + ".parse", ["C14"], name="DIP.parse[assignments]")
+def _(c):
+    c.bound = f"{len(C14_TEXTS)} texts assigning already defined nodes again; the assigned numbers are symbolic"
+    c.chunk = 1
+    for name, text, refused, vals, units in C14_TEXTS:
+        def pre(b, text=text, refused=refused, vals=vals, units=units):
+            d, env, S = prestate2(b, PRE14, text)
+            return dict(args=[d], env=dict(S=S, refused=refused, vals=vals, units=units, text=text))
+        c.scenario(name, pre)
+    c.raises("ev(refused, S)", label="refused-iff-type-dimension-constant-or-missing-value")
+    c.ensures("all([agrees(val_of(result, nm), t, S) for nm, t in vals])", "last-assigned-value-in-the-definition-unit")
+    c.ensures("all([unit_of(result, nm) == u for nm, u in units])", "unit-of-the-first-occurrence")
+    c.ensures(f"[type_of(result, nm) for nm, kw in {KEYWORDS14!r}] == [('float', 64, None), ('int', 32, False), ('bool', None, None), ('str', None, None), ('float', 32, None), ('float', 64, None), ('int', 64, True)]",
+              "data-type-of-the-first-occurrence")
+    c.ensures(f"len([n for n in names_of(result) if n in ('len', 'cnt', 'flag', 'txt', 'mass', 'fixed', 'big', 'd', 'n')]) == len(set([n for n in names_of(result) if n in ('len', 'cnt', 'flag', 'txt', 'mass', 'fixed', 'big', 'd', 'n')]))",
+              "a-single-parameter-per-node")
+    c.ensures("all([val_of(result, nm) is None and node_of(result, nm) is not None for nm in (['len', 'cnt'] if 'none' in text else [])])", "none-is-kept-as-none")
+
+
+# ---- C19: the DIP text export declares every parameter with its own data type (width and sign included) -----------------------------
+EX = "dip/config/export.py::ExportConfig"
+C19_TYPED = ('a int16 = 5 cm\nb uint64 = 7\nc uint = 1\nd float32 = 1.5 K\ng\n  e int64 = -3\nf float128 = 2\nh int = 4\nk uint16 = 2\nu uint32 = 9\ns str = hello\nt bool = true\nq float = 0.5',
+             [("a", "int16"), ("b", "uint64"), ("c", "uint"), ("d", "float32"), ("g.e", "int64"), ("f", "float128"), ("h", "int"), ("k", "uint16"), ("u", "uint"), ("s", "str"), ("t", "bool"), ("q", "float")])
+
+
+@spec
+def decl_line(text, name):
+    for l in text.split('\n'):
+        if l.startswith(name + ' '):
+            return l
+    return ''
+
+
+@contract(EX + ".parse", ["C19"], name="ExportConfig.parse[declared-types]")
+def _(c):
+    c.bound = "one text with every integer / float width and sign, a string and a boolean"
+
+    def pre(b):
+        d0 = b.new(DIPC, name="t")
+        b.call(b.getattr(d0, "add_string"), C19_TYPED[0])
+        env = b.call(b.getattr(d0, "parse"))
+        return dict(args=[b.new(EX, env)], env=dict(want=C19_TYPED[1]))
+    c.scenario("all-widths-and-signs", pre)
+    c.ensures("all([decl_line(result, nm).startswith(nm + ' ' + t + ' = ') for nm, t in want])", "declared-type-width-and-sign-of-the-node")
+    c.ensures("len(result.split('\\n')) == len(want)", "one-line-per-parameter")
+    c.no_raise()
